@@ -6,23 +6,32 @@
   RegistryOrder.lean (the nested finalisation is a depth-first traversal: order independence of the ledger, `reachK_wf` by
   induction), RegistrySpec.lean (ledger of the property text, `dealloc` histories).
   Model: Cello/Registry.lean (mirrors src/GC.c as it is now).  Source-derived parameters: CelloGen/Reg.lean, bundled as
-  `gcCfg` (prime table, load factor, `size+1`, hash shift, tie rule of GC_Set_Ptr, threshold formula); `gcProbe` is GC_Probe
-  translated expression by expression.  Every theorem below that mentions `gcCfg` or `CelloGen.Reg` is re-checked
-  against the regenerated file on every run.
+  `gcCfg` (prime table, load factor, `size+1`, hash shift, tie rule of GC_Set_Ptr, threshold formula, and three flags read from
+  the statement shapes: the NULL test at the head of GC_Rem_Ptr — fix d3e4e44 —, GC_Unmark in the prologue of GC_Mark and in
+  GC_Del — fix d8f0c4f); `gcProbe` is GC_Probe translated expression by expression.  Every theorem below that mentions
+  `gcCfg` or `CelloGen.Reg` is re-checked against the regenerated file on every run: with either fix reverted in the source
+  the flag turns false, the model follows the old code, and `gcRemPtr_tests_null` / `gcMark_unmarks_first` and every
+  theorem that uses them stop checking.
 
   Assumptions, stated where used: a new object's address is non-NULL, 8-aligned and differs from the live managed ones
-  (`okOp`, what malloc gives); sizes as natural numbers (no 2^64 wrap-around); destructors delete but do not allocate managed
-  objects.  `C17_registry_exact` is the history theorem for plain destructors (`noK`); `C17_registry_exact_destructors` /
+  (`okOp`, what malloc gives; removals carry no condition: `del(NULL)` is admissible everywhere, also from a destructor
+  during a sweep); sizes as natural numbers (no 2^64 wrap-around); destructors delete but do not allocate managed objects.  `C17_registry_exact` is the history theorem for plain destructors (`noK`); `C17_registry_exact_destructors` /
   `C17_progress_destructors` are its counterpart for destructors that delete other objects (`K`), where the ledger transition
   of a collection is a relation (the order in which the reclaimed objects are finalised is the sweep's slot order) —
   `C17_ledger_choice_irrelevant` shows that every ledger the relation allows has the same members, and `ReachK` carries no
   well-formedness premise: `C17_registry_exact_destructors` is proved by induction over the history.
 
-  Three regions in which the code as it is departs from the property text are exhibited by `…_refuted` theorems on concrete
+  Repaired (the refutations are kept, about explicit OLD variants of the model):
+   * fix d3e4e44 — `C17_progress_destructors` / `C17_progress_all_destructors` hold for every destructor behaviour `K`,
+     `del(NULL)` included (formerly hypothesis `NoNull K`); `C17_null_del_in_sweep_old_refuted` /
+     `C17_progress_all_destructors_old_refuted`: with `gcCfgOldRem` (no NULL test in GC_Rem_Ptr) a destructor calling
+     `del(NULL)` during GC_Sweep's finalisation matches a struck-off pending slot and runs `dealloc(destruct(NULL))`;
+     `C17_progress_destructors_old_partial` is what held there (`NoNull K`);
+   * fix d8f0c4f — `C17_collection_ignores_stale_marks` / `C17_teardown_ignores_stale_marks`: GC_Mark and GC_Del start from
+     clear mark bits whatever a mark phase left by an exception left behind; `C17_stale_marks_old_refuted`: with `gcCfgOldMark`
+     the stale-marked object survives the collection.
+  Two regions in which the code as it is departs from the property text are exhibited by `…_refuted` theorems on concrete
   witnesses instead of being folded into the ledger:
-   * `C17_null_del_in_sweep_refuted` — a destructor that calls `del(NULL)`: harmless under an explicit `del`, but during
-     GC_Sweep's finalisation GC_Rem_Ptr matches NULL against a struck-off pending slot and runs `dealloc(destruct(NULL))`
-     (hypothesis `NoNull K` of the destructor theorems);
    * `C17_stopped_window_refuted` — `new` / `del` while the collector is stopped are ignored by the registry (F23); the ledger of
      the property text (`ReachI`, `idealStep`: a function of the history) is met only outside that window
      (`C17_registry_exact_ideal_partial`);
@@ -56,6 +65,15 @@ theorem idealSize_gt (n : Nat) : ∃ v, idealSize gcCfg n = some v ∧ n < v :=
 
 /-- the parameters of the source satisfy what the history theorem needs -/
 theorem gcCfg_good : GoodCfg gcCfg := ⟨by decide, by decide, by decide, by decide⟩
+
+/-- **GC_Rem_Ptr returns at once for NULL** (`if (gc->nslots is 0 or ptr is NULL) { return; }`, fix d3e4e44): read from the
+    source on every run.  The destructor theorems below need no condition on what destructors delete because of this. -/
+theorem gcRemPtr_tests_null : gcCfg.remNullGuard = true := by decide
+
+/-- **GC_Mark and GC_Del call GC_Unmark first** (fix d8f0c4f): read from the source on every run -/
+theorem gcMark_unmarks_first : gcCfg.markUnmarks = true ∧ gcCfg.delUnmarks = true := ⟨by decide, by decide⟩
+
+theorem gcCfg_nullOk (K : Nat → List Nat) : NullOk gcCfg K := Or.inl gcRemPtr_tests_null
 
 /-- **GC_Probe is the cyclic distance.**  The C expression (`v = i - (h-1); if (v < 0) v = nslots + v`) on a stored hash
     `h = home + 1` equals the model's `dist`. -/
@@ -206,23 +224,22 @@ theorem C17_invB_sound (r : Reg) (h : invB gcCfg r = true) :
     and refines the same recursion on (ledger, pending addresses) `absExec`: an address waiting on the pending list is struck
     off and finalised (the repaired defect F24), a registered one is erased and finalised, anything else is ignored; the
     deallocation trace is the abstract one; the resulting state is well formed for the resulting ledger; nothing is added.
-    Hypotheses: no destructor passes NULL to `del` (`NoNull K`) and the pointer removed is not NULL unless no sweep is in
-    progress — GC_Rem_Ptr compares the raw words of the pending list with the pointer, and a struck-off slot holds NULL
-    (excluded region: `C17_null_del_in_sweep_refuted`). -/
-theorem C17_rem_nested (K : Nat → List Nat) (hK : NoNull K) (r : Reg) (L : Ledger) (h : WFP gcCfg r L) (x : Nat)
-    (hx : x ≠ 0 ∨ r.pending = #[]) :
+    No hypothesis on NULL: `K` may list NULL and `x` may be NULL, mid-sweep included — GC_Rem_Ptr returns at once for NULL
+    (`gcRemPtr_tests_null`; before fix d3e4e44 it compared the raw words of the pending list with the pointer, and a
+    struck-off slot holds NULL: `C17_null_del_in_sweep_old_refuted`). -/
+theorem C17_rem_nested (K : Nat → List Nat) (r : Reg) (L : Ledger) (h : WFP gcCfg r L) (x : Nat) :
     ∃ r' a' t, gcRem gcCfg K r x = some (r', t) ∧
       absExec K r.running (nestFuel r) (L, pendList r) (.rem x) = some (a', t) ∧
       WFP gcCfg r' a'.1 ∧ pendList r' = a'.2 ∧ r'.running = r.running ∧ Abs.size a' ≤ Abs.size (L, pendList r) := by
-  obtain ⟨r', a', t, h1, h2, h3, h4, h5, _, h7⟩ := gcRem_sim gcCfg gcCfg_good K hK r L h x hx
+  obtain ⟨r', a', t, h1, h2, h3, h4, h5, _, h7⟩ := gcRem_sim gcCfg gcCfg_good K (gcCfg_nullOk K) r L h x (Or.inl gcRemPtr_tests_null)
   exact ⟨r', a', t, h1, h2, h3, h4, h5, h7⟩
 
 /-- the simulation itself, for every fuel and both commands (finalise `p`, remove `x`): the model fails exactly when the
     abstract recursion runs out of fuel, and otherwise agrees with it -/
-theorem C17_nested_simulation (K : Nat → List Nat) (hK : NoNull K) (fuel : Nat) (r : Reg) (a : Abs) (cmd : Cmd)
-    (h : WFP gcCfg r a.1) (hp : pendList r = a.2) (hc : CmdOk r cmd) :
+theorem C17_nested_simulation (K : Nat → List Nat) (fuel : Nat) (r : Reg) (a : Abs) (cmd : Cmd)
+    (h : WFP gcCfg r a.1) (hp : pendList r = a.2) :
     Sim gcCfg r.running r.pending.size (exec gcCfg K fuel r cmd) (absExec K r.running fuel a cmd) :=
-  exec_sim gcCfg gcCfg_good K hK fuel r a cmd h hp hc
+  exec_sim gcCfg gcCfg_good K (gcCfg_nullOk K) fuel r a cmd h hp (by cases cmd; exact trivial; exact Or.inl gcRemPtr_tests_null)
 
 /-- every reachable state is such a well-formed state (with an empty pending list) -/
 theorem C17_reach_wfp (r : Reg) (L : Ledger) (h : Reach gcCfg r L) : WFP gcCfg r L ∧ pendList r = [] := by
@@ -234,24 +251,24 @@ theorem C17_reach_wfp (r : Reg) (L : Ledger) (h : Reach gcCfg r L) : WFP gcCfg r
     finalisation loop — which skips the slots a destructor has struck off and finalises a struck-off object at once —
     refines `absFinLoop` on (kept ledger, `order`) with the same deallocation trace; the final state is well formed for the
     resulting ledger, with an empty pending list. -/
-theorem C17_sweep_destructors (K : Nat → List Nat) (hK : NoNull K) (r : Reg) (L : Ledger) (mk : Nat → Bool → Bool)
+theorem C17_sweep_destructors (K : Nat → List Nat) (r : Reg) (L : Ledger) (mk : Nat → Bool → Bool)
     (h : Core gcCfg r L mk) (hc : r.nitems = occ r.slots) (hroom : Room r) (hb : Bounded r L) (hnd : (L.map Prod.fst).Nodup) :
     ∃ (order : List Nat) (r' : Reg) (a' : AbsO) (t : List Nat),
       gcSweep gcCfg K r = some (r', t) ∧
       absFinLoop K r.running order.length 0 (collectBy L mk, order.map some) [] = some (a', t) ∧
       WF gcCfg r' a'.1 ∧ r'.running = r.running ∧ order.Nodup ∧
       (∀ p, p ∈ order ↔ ∃ b, (p, b) ∈ L ∧ (p, b) ∉ collectBy L mk) :=
-  gcSweep_simO gcCfg gcCfg_good K hK r L mk h hc hroom hb hnd
+  gcSweep_simO gcCfg gcCfg_good K (gcCfg_nullOk K) r L mk h hc hroom hb hnd
 
 /-- **C17 with destructors that delete other objects.**  `ReachK K` are the model states reached by a history of the same
-    operations when the destructor of `p` deletes the objects `K p` (none of them NULL), each paired with *any* ledger obtained
+    operations when the destructor of `p` deletes the objects `K p` (any pointers, NULL included), each paired with *any* ledger obtained
     by the abstract transitions `LedgerK` (deletion = `absExecO` on the ledger; collection = reclaim the unmarked non-roots in
     some order and run `absFinLoop`).  `ReachK` has no well-formedness premise: the theorem is an induction over the history
     (`reachK_wf`), whose step is `ledgerK_wf` — the model's next state is well formed for every ledger `LedgerK` allows.  In
     every such state the registry is exact for that ledger. -/
-theorem C17_registry_exact_destructors (K : Nat → List Nat) (hK : NoNull K) (r : Reg) (L : Ledger) (h : ReachK gcCfg K r L) :
+theorem C17_registry_exact_destructors (K : Nat → List Nat) (r : Reg) (L : Ledger) (h : ReachK gcCfg K r L) :
     Exact gcCfg r L := by
-  have hwf := reachK_wf gcCfg gcCfg_good K hK r L h
+  have hwf := reachK_wf gcCfg gcCfg_good K (gcCfg_nullOk K) r L h
   refine ⟨wf_mem gcCfg r L hwf, hwf.core.ents, hwf.core.inv.distinct, ⟨wf_count gcCfg r L hwf, hwf.count⟩,
     hwf.bounded.bounds, hwf.core.inv, ?_, hwf.pend⟩
   rcases Nat.eq_zero_or_pos r.n with h0 | hn
@@ -266,66 +283,188 @@ theorem C17_ledger_choice_irrelevant (K : Nat → List Nat) (r : Reg) (L : Ledge
     (hok : okOp L op) (L1 L2 : Ledger) (h1 : LedgerK K r L op L1) (h2 : LedgerK K r L op L2) : ∀ x, x ∈ L1 ↔ x ∈ L2 :=
   ledgerK_members K r L op L1 L2 hnd hok h1 h2
 
-/-- … and every history can be continued: for every admissible operation the model answers (nested destructors terminate
-    within the model's fuel, no division by zero, no endless probe, no `destruct(NULL)`), some abstract ledger transition
-    explains the step, and the new state is again reachable (hence exact) for the new ledger. -/
-theorem C17_progress_destructors (K : Nat → List Nat) (hK : NoNull K) (r : Reg) (L : Ledger) (h : ReachK gcCfg K r L) (op : Op)
+/-- the progress statement for every destructor behaviour, as a property of the source-derived parameters -/
+def C17_progress_all_destructors_statement (c : Cfg) : Prop :=
+  ∀ (K : Nat → List Nat) (r : Reg) (L : Ledger), ReachK c K r L → ∀ op, okOp L op →
+    ∃ r' L', stepK c K r op = some r' ∧ LedgerK K r L op L' ∧ ReachK c K r' L'
+
+/-- … and every history can be continued, **whatever the destructors delete** (NULL included: fix d3e4e44): for every
+    admissible operation the model answers (nested destructors terminate within the model's fuel, no division by zero, no
+    endless probe, no `destruct(NULL)`), some abstract ledger transition explains the step, and the new state is again
+    reachable (hence exact) for the new ledger. -/
+theorem C17_progress_destructors (K : Nat → List Nat) (r : Reg) (L : Ledger) (h : ReachK gcCfg K r L) (op : Op)
     (hok : okOp L op) :
     ∃ r' L', stepK gcCfg K r op = some r' ∧ LedgerK K r L op L' ∧ ReachK gcCfg K r' L' := by
-  obtain ⟨r', L', h1, h2, _⟩ := stepK_wf gcCfg gcCfg_good K hK r L (reachK_wf gcCfg gcCfg_good K hK r L h) op hok
+  obtain ⟨r', L', h1, h2, _⟩ :=
+    stepK_wf gcCfg gcCfg_good K (gcCfg_nullOk K) r L (reachK_wf gcCfg gcCfg_good K (gcCfg_nullOk K) r L h) op hok
   exact ⟨r', L', h1, h2, ReachK.step h hok h1 h2⟩
 
-/-! ### excluded region 1: a destructor that calls `del(NULL)` (known finding KF-C17-null-del-sweep) -/
+/-- the statement that was only a `def` while KF-C17-null-del-sweep stood: now a theorem about the source as it is -/
+theorem C17_progress_all_destructors : C17_progress_all_destructors_statement gcCfg :=
+  fun K r L h op hok => C17_progress_destructors K r L h op hok
 
-/-- the progress statement without `NoNull K` -/
-def C17_progress_all_destructors_statement : Prop :=
-  ∀ (K : Nat → List Nat) (r : Reg) (L : Ledger), ReachK gcCfg K r L → ∀ op, okOp L op →
-    ∃ r' L', stepK gcCfg K r op = some r' ∧ LedgerK K r L op L' ∧ ReachK gcCfg K r' L'
+/-! ### repaired region: a destructor that calls `del(NULL)` (was KF-C17-null-del-sweep, fix d3e4e44) -/
 
 /-- the destructor of the object at address 64 calls `del(NULL)` -/
 def nullK : Nat → List Nat := fun p => if p = 64 then [0] else []
 
-/-- **`del(NULL)` in a destructor: fine under `del`, fatal under collection.**  After `new` of one object whose destructor calls
-    `del(NULL)` (state `r`, reachable, ledger `[(64, false)]`): the explicit `del` of the object answers — GC_Rem_Ptr probes for
-    NULL, finds nothing, returns — and leaves an empty registry; a collection that reclaims the same object does not answer:
-    GC_Sweep clears the object's pending slot before it runs the destructor, GC_Rem_Ptr(NULL) matches that slot and runs
-    `dealloc(destruct(NULL))` (ValueError raised by `type_of` inside the collector, the rest of the pending list is never
-    finalised).  The C code does the same (harness op `killnull`, corpus/kf_c17_null_del_sweep.ops). -/
-theorem C17_null_del_in_sweep_refuted :
+/-- the reachable state both witnesses start from: one object at 64 (the first allocation reaches the threshold, the
+    collection it triggers marks it, it survives); the same for both variants of GC_Rem_Ptr -/
+theorem nullK_reach (c : Cfg) (r : Reg) (hr : stepK c nullK Reg.init (.new 64 false [64]) = some r) :
+    ReachK c nullK r [(64, false)] := by
+  refine ReachK.step ReachK.init (show okOp [] (.new 64 false [64]) from ⟨by simp, by decide, by decide⟩) hr ?_
+  refine LedgerK.new_collect 64 false [64] _ rfl (by decide) ⟨[], (collectL [(64, false)] [64], []), [], List.nodup_nil, ?_, rfl, by decide⟩
+  intro p
+  constructor
+  · intro h; cases h
+  · rintro ⟨b, h1, h2⟩
+    have : collectL [(64, false)] [64] = [(64, false)] := by decide
+    rw [this] at h2; exact absurd h1 h2
+
+/-- **`del(NULL)` in a destructor is a no-op, under `del` and under collection** (the source as it is now).  After `new` of
+    one object whose destructor calls `del(NULL)` (state `r`, reachable, ledger `[(64, false)]`): the explicit `del` of the
+    object and a collection that reclaims it both answer and leave an empty registry with an empty pending list.  The C code
+    does the same (harness op `killnull`, corpus/reg_fixed_null_del_sweep.ops). -/
+theorem C17_null_del_in_sweep_fixed :
     ∃ r, ReachK gcCfg nullK r [(64, false)] ∧
       (stepK gcCfg nullK r (.del 64)).map (fun r' => (r'.nitems, r'.pending.size)) = some (0, 0) ∧
-      stepK gcCfg nullK r (.sweep []) = none := by
+      (stepK gcCfg nullK r (.sweep [])).map (fun r' => (r'.nitems, r'.pending.size)) = some (0, 0) := by
   have hs : (stepK gcCfg nullK Reg.init (.new 64 false [64])).isSome = true := by decide +kernel
   obtain ⟨r, hr⟩ := Option.isSome_iff_exists.1 hs
   have hd : ((stepK gcCfg nullK Reg.init (.new 64 false [64])).bind (fun r => stepK gcCfg nullK r (.del 64))).map
       (fun r' => (r'.nitems, r'.pending.size)) = some (0, 0) := by decide +kernel
-  have hw : ((stepK gcCfg nullK Reg.init (.new 64 false [64])).bind (fun r => stepK gcCfg nullK r (.sweep []))).isNone = true := by
+  have hw : ((stepK gcCfg nullK Reg.init (.new 64 false [64])).bind (fun r => stepK gcCfg nullK r (.sweep []))).map
+      (fun r' => (r'.nitems, r'.pending.size)) = some (0, 0) := by decide +kernel
+  rw [hr] at hd hw
+  exact ⟨r, nullK_reach gcCfg r hr, hd, hw⟩
+
+/-- **OLD variant (before fix d3e4e44): `del(NULL)` in a destructor was fine under `del`, fatal under collection.**  With
+    `gcCfgOldRem` (GC_Rem_Ptr tests `nslots` only), from the same state: the explicit `del` of the object answers — GC_Rem_Ptr
+    probes for NULL, finds nothing, returns — and leaves an empty registry; a collection that reclaims the same object does
+    not answer: GC_Sweep clears the object's pending slot before it runs the destructor, GC_Rem_Ptr(NULL) matches that slot
+    and runs `dealloc(destruct(NULL))` (ValueError raised by `type_of` inside the collector, the rest of the pending list is
+    never finalised). -/
+theorem C17_null_del_in_sweep_old_refuted :
+    ∃ r, ReachK gcCfgOldRem nullK r [(64, false)] ∧
+      (stepK gcCfgOldRem nullK r (.del 64)).map (fun r' => (r'.nitems, r'.pending.size)) = some (0, 0) ∧
+      stepK gcCfgOldRem nullK r (.sweep []) = none := by
+  have hs : (stepK gcCfgOldRem nullK Reg.init (.new 64 false [64])).isSome = true := by decide +kernel
+  obtain ⟨r, hr⟩ := Option.isSome_iff_exists.1 hs
+  have hd : ((stepK gcCfgOldRem nullK Reg.init (.new 64 false [64])).bind (fun r => stepK gcCfgOldRem nullK r (.del 64))).map
+      (fun r' => (r'.nitems, r'.pending.size)) = some (0, 0) := by decide +kernel
+  have hw : ((stepK gcCfgOldRem nullK Reg.init (.new 64 false [64])).bind (fun r => stepK gcCfgOldRem nullK r (.sweep []))).isNone = true := by
     decide +kernel
   rw [hr] at hd hw
-  refine ⟨r, ?_, hd, ?_⟩
-  · refine ReachK.step ReachK.init (show okOp [] (.new 64 false [64]) from ⟨by simp, by decide, by decide⟩) hr ?_
-    refine LedgerK.new_collect 64 false [64] _ rfl (by decide) ⟨[], (collectL [(64, false)] [64], []), [], List.nodup_nil, ?_, rfl, by decide⟩
-    intro p
-    constructor
-    · intro h; cases h
-    · rintro ⟨b, h1, h2⟩
-      have : collectL [(64, false)] [64] = [(64, false)] := by decide
-      rw [this] at h2; exact absurd h1 h2
-  · cases h : stepK gcCfg nullK r (.sweep []) with
-    | none => rfl
-    | some r' => simp [h] at hw
+  refine ⟨r, nullK_reach gcCfgOldRem r hr, hd, ?_⟩
+  cases h : stepK gcCfgOldRem nullK r (.sweep []) with
+  | none => rfl
+  | some r' => simp [h] at hw
 
-theorem C17_progress_all_destructors_refuted : ¬ C17_progress_all_destructors_statement := by
+theorem C17_progress_all_destructors_old_refuted : ¬ C17_progress_all_destructors_statement gcCfgOldRem := by
   intro hall
-  obtain ⟨r, hr, _, hnone⟩ := C17_null_del_in_sweep_refuted
+  obtain ⟨r, hr, _, hnone⟩ := C17_null_del_in_sweep_old_refuted
   obtain ⟨r', _, h, _⟩ := hall nullK r _ hr (.sweep []) trivial
   rw [hnone] at h; cases h
 
-/-- destructors that do not delete NULL exist and include every `K` the harness generates for the differential check -/
+theorem gcCfgOldRem_good : GoodCfg gcCfgOldRem := ⟨by decide, by decide, by decide, by decide⟩
+
+/-- what held before the fix: progress (and exactness) for destructors that do not delete NULL -/
+theorem C17_progress_destructors_old_partial (K : Nat → List Nat) (hK : NoNull K) (r : Reg) (L : Ledger)
+    (h : ReachK gcCfgOldRem K r L) (op : Op) (hok : okOp L op) :
+    ∃ r' L', stepK gcCfgOldRem K r op = some r' ∧ LedgerK K r L op L' ∧ ReachK gcCfgOldRem K r' L' := by
+  obtain ⟨r', L', h1, h2, _⟩ :=
+    stepK_wf gcCfgOldRem gcCfgOldRem_good K (Or.inr hK) r L (reachK_wf gcCfgOldRem gcCfgOldRem_good K (Or.inr hK) r L h) op hok
+  exact ⟨r', L', h1, h2, ReachK.step h hok h1 h2⟩
+
+/-- destructors that do not delete NULL exist (hypothesis of `C17_progress_destructors_old_partial`) -/
 example : NoNull (fun p => if p = 64 then [72, 64] else []) := by
   intro p; by_cases h : p = 64 <;> simp [h]
 
-/-! ### excluded region 2: allocation and deletion while the collector is stopped (F23; known finding KF-C17-stopped) -/
+/-! ### repaired region: mark bits left by a mark phase that an exception left (fix d8f0c4f; C01's KF-C01-stale-marks) -/
+
+/-- **A collection starts from clear mark bits.**  From a state whose entries are the ledger's with *arbitrary* mark bits `mk`
+    (a mark phase left by an exception), GC_Mark — GC_Unmark, the roots, GC_Mark_Item on `marks` — followed by GC_Sweep leaves
+    a well-formed registry for exactly the roots and the objects this mark phase reached: the stale bits have no effect. -/
+theorem C17_collection_ignores_stale_marks (r : Reg) (L : Ledger) (mk : Nat → Bool → Bool) (h : Core gcCfg r L mk)
+    (hc : r.nitems = occ r.slots) (hroom : Room r) (hb : Bounded r L) (hnd : (L.map Prod.fst).Nodup) (hp : r.pending = #[])
+    (hnz : r.nitems ≠ 0) (marks : List Nat) :
+    ∃ r1 r' t, gcMark gcCfg r marks = some r1 ∧ gcSweep gcCfg noK r1 = some (r', t) ∧ WF gcCfg r' (collectL L marks) := by
+  obtain ⟨h1, h2, h3, h4⟩ := unmark_core gcCfg r L mk h
+  have wf1 : WF gcCfg (unmark r) L := ⟨h1, by show r.nitems = occ (unmark r).slots; rw [h2]; exact hc, hroom,
+    ⟨hb.bounds, hb.aligned, hb.zero, hb.nonnull⟩, hnd, hp⟩
+  obtain ⟨r1, r', t, e1, e2, e3, _⟩ := collect_wf gcCfg gcCfg_good (unmark r) L wf1 true marks
+  simp only [if_true] at e1
+  refine ⟨r1, r', t, ?_, e2, e3⟩
+  rw [gcMark_eq gcCfg r marks hnz]
+  unfold markStart
+  rw [if_pos gcMark_unmarks_first.1]
+  exact e1
+
+/-- **… and so does the teardown**: GC_Del — GC_Unmark, GC_Sweep — finalises everything but the roots, whatever mark bits
+    were left -/
+theorem C17_teardown_ignores_stale_marks (r : Reg) (L : Ledger) (mk : Nat → Bool → Bool) (h : Core gcCfg r L mk)
+    (hc : r.nitems = occ r.slots) (hroom : Room r) (hb : Bounded r L) (hnd : (L.map Prod.fst).Nodup) (hp : r.pending = #[]) :
+    ∃ r' t, gcDel gcCfg noK r = some (r', t) ∧ WF gcCfg r' (collectL L []) := by
+  obtain ⟨h1, h2, h3, h4⟩ := unmark_core gcCfg r L mk h
+  have wf1 : WF gcCfg (unmark r) L := ⟨h1, by show r.nitems = occ (unmark r).slots; rw [h2]; exact hc, hroom,
+    ⟨hb.bounds, hb.aligned, hb.zero, hb.nonnull⟩, hnd, hp⟩
+  obtain ⟨r1, r', t, e1, e2, e3, _⟩ := collect_wf gcCfg gcCfg_good (unmark r) L wf1 false []
+  simp only [Bool.false_eq_true, if_false] at e1
+  have : r1 = unmark r := by
+    have : markAll gcCfg (unmark r) [] = some (unmark r) := rfl
+    rw [this] at e1; exact (Option.some.inj e1).symm
+  subst this
+  refine ⟨r', t, ?_, e3⟩
+  unfold gcDel
+  rw [if_pos gcMark_unmarks_first.2]
+  exact e2
+
+/-- a state with stale mark bits meets the hypotheses (object 64 registered, its mark bit left set) -/
+example : ∃ r, Core gcCfg r [(64, false)] (fun _ _ => true) ∧ r.nitems = occ r.slots ∧ Room r ∧ r.nitems ≠ 0 := by
+  obtain ⟨r0, _, hr0⟩ := C17_progress Reg.init [] Reach.init (.new 64 false [64]) ⟨by simp, by decide, by decide⟩
+  have hL : ledgerStep Reg.init [] (.new 64 false [64]) = [(64, false)] := by decide
+  rw [hL] at hr0
+  have hwf := reach_wf gcCfg gcCfg_good r0 _ hr0
+  obtain ⟨r, _, hcore, hocc, hmeta, hn⟩ := markAll_core gcCfg r0 _ noMark hwf.core hwf.count hwf.room hwf.bounded [64]
+  refine ⟨r, ⟨hcore.inv, ?_⟩, by rw [hmeta.nitems, hocc]; exact hwf.count, by unfold Room; rw [hmeta.nitems, hn]; exact hwf.room, ?_⟩
+  · intro e
+    rw [hcore.ents e]
+    constructor
+    · rintro ⟨a, b, d⟩
+      refine ⟨a, ?_, d⟩
+      have : e.key = 64 := by simpa using congrArg Prod.fst (List.mem_singleton.1 a)
+      simp [b, this, noMark]
+    · rintro ⟨a, b, d⟩
+      refine ⟨a, ?_, d⟩
+      have : e.key = 64 := by simpa using congrArg Prod.fst (List.mem_singleton.1 a)
+      simp [b, this, noMark]
+  · rw [hmeta.nitems, wf_count gcCfg r0 _ hwf]; decide
+
+/-- **OLD variant (before fix d8f0c4f): a stale mark bit keeps a dead object registered.**  One object at 64, unreferenced;
+    a mark phase marks it and is left by an exception (`markAll … [64]`, no sweep); the object then becomes unreachable.  The
+    next collection reaches nothing (`marks = []`): with `gcCfgOldMark` (no GC_Unmark) the object is still registered
+    afterwards and nothing is finalised; with the source as it is now it is reclaimed. -/
+theorem C17_stale_marks_old_refuted :
+    ∃ r0 r, Reach gcCfg r0 [(64, false)] ∧ markAll gcCfg r0 [64] = some r ∧
+      ((gcMark gcCfgOldMark r []).bind (fun r1 => gcSweep gcCfgOldMark noK r1)).map (fun x => (x.1.nitems, x.2)) = some (1, []) ∧
+      ((gcMark gcCfg r []).bind (fun r1 => gcSweep gcCfg noK r1)).map (fun x => (x.1.nitems, x.2)) = some (0, [64]) := by
+  have hs : ((step gcCfg Reg.init (.new 64 false [64])).bind (fun r0 => markAll gcCfg r0 [64])).isSome = true := by decide +kernel
+  obtain ⟨r, hr⟩ := Option.isSome_iff_exists.1 hs
+  obtain ⟨r0, h0, h01⟩ := Option.bind_eq_some_iff.1 hr
+  have ho : (((step gcCfg Reg.init (.new 64 false [64])).bind (fun r0 => markAll gcCfg r0 [64])).bind (fun r =>
+      (gcMark gcCfgOldMark r []).bind (fun r1 => gcSweep gcCfgOldMark noK r1))).map (fun x => (x.1.nitems, x.2)) = some (1, []) := by
+    decide +kernel
+  have hn : (((step gcCfg Reg.init (.new 64 false [64])).bind (fun r0 => markAll gcCfg r0 [64])).bind (fun r =>
+      (gcMark gcCfg r []).bind (fun r1 => gcSweep gcCfg noK r1))).map (fun x => (x.1.nitems, x.2)) = some (0, [64]) := by
+    decide +kernel
+  rw [hr] at ho hn
+  have hreach : Reach gcCfg r0 [(64, false)] := by
+    have := Reach.step Reach.init (show okOp [] (.new 64 false [64]) from ⟨by simp, by decide, by decide⟩) h0
+    have e : ledgerStep Reg.init [] (.new 64 false [64]) = [(64, false)] := by decide
+    rw [e] at this; exact this
+  exact ⟨r0, r, hreach, h01, ho, hn⟩
+
+/-! ### excluded region 1: allocation and deletion while the collector is stopped (F23; known finding KF-C17-stopped) -/
 
 /-- the full statement against the ledger of the property text (`idealStep`: every managed allocation adds, every `del`
     removes, whatever the `running` flag; the flag itself is a function of the history) -/
@@ -372,7 +511,7 @@ example : ∃ r, ReachQ gcCfg r ([(64, false)], false) := by
   rw [e] at h1
   exact ⟨gcStop r1, ReachQ.step h1 (op := .stop) trivial trivial rfl⟩
 
-/-! ### excluded region 3: `dealloc` / `dealloc_root` of a registered object (known finding KF-C17-dealloc-stale) -/
+/-! ### excluded region 2: `dealloc` / `dealloc_root` of a registered object (known finding KF-C17-dealloc-stale) -/
 
 /-- the full statement when histories may also release managed objects with `dealloc` / `dealloc_raw` / `dealloc_root` -/
 def C17_with_dealloc_statement : Prop := ∀ (r : Reg) (L : Ledger), ReachD gcCfg r L → Exact gcCfg r L
@@ -544,8 +683,8 @@ example : ∃ r, Reach gcCfg r [(8, false)] := by
 
 /-- histories with destructors reach states with a non-empty ledger (hypothesis of `C17_registry_exact_destructors`): the
     first allocation reaches the threshold, the collection it triggers marks it, and it survives -/
-example (K : Nat → List Nat) (hK : NoNull K) : ∃ r, ReachK gcCfg K r [(8, false)] := by
-  obtain ⟨r1, L1, _, hl1, h1⟩ := C17_progress_destructors K hK Reg.init [] ReachK.init (.new 8 false [8]) ⟨by simp, by decide, by decide⟩
+example (K : Nat → List Nat) : ∃ r, ReachK gcCfg K r [(8, false)] := by
+  obtain ⟨r1, L1, _, hl1, h1⟩ := C17_progress_destructors K Reg.init [] ReachK.init (.new 8 false [8]) ⟨by simp, by decide, by decide⟩
   cases hl1 with
   | new_plain _ _ _ _ hth => exact absurd (by decide : Reg.init.nitems + 1 > Reg.init.mitems) hth
   | new_stopped _ _ _ hrun => exact absurd hrun (by decide)
